@@ -12,6 +12,7 @@ import PynnVerif.Driver.Diversify
 import PynnVerif.Driver.Connect
 import PynnVerif.Driver.Metrics
 import PynnVerif.Driver.Metrics2
+import PynnVerif.Driver.GenM
 /-!
 # Line-protocol driver over the executable model
 
@@ -32,7 +33,7 @@ structure St where
   row : Row F := #[]
 
 /-- stateless area handlers (first one that answers wins) -/
-def handlers : List Handler := [handleDescent, handleSparse, handleIndex, handleAlias, handleTransformer, handleRPTree, handleSearch, handleXlate, handleTransport, handleDiversify, handleConnect, handleMetrics, handleMetrics2]
+def handlers : List Handler := [handleDescent, handleSparse, handleIndex, handleAlias, handleTransformer, handleRPTree, handleSearch, handleXlate, handleTransport, handleDiversify, handleConnect, handleMetrics, handleMetrics2, handleGenM]
 
 def step (st : St) (line : String) : St × String :=
   let toks := (line.trimAscii.toString.splitOn " ").filter (· ≠ "")
